@@ -466,4 +466,56 @@ pub fn run(ctx: &mut Ctx) {
         ensure!(got == c.v, "{} of {} has inner {}", w.name, c.v, got);
         Ok(())
     });
+
+    // every other way a custom-width sample comes into being must respect the range too: conversion from floats and from
+    // the other integer formats (boundary values, incl. the largest floats below 1.0 and -1.0)
+    #[derive(Clone, Debug, Serialize, Deserialize)]
+    struct ConvCase {
+        /// 0 = f32 bit pattern, 1 = f64 bit pattern, 2 = i64 value, 3 = u64 value
+        src: u8,
+        bits: u64,
+    }
+    let mut cases = Vec::new();
+    for k in 0..=6u64 {
+        for sign in [0u64, 1] {
+            cases.push(ConvCase { src: 0, bits: ((1.0f32.to_bits() - 1 - k as u32) as u64) | (sign << 31) });
+            cases.push(ConvCase { src: 1, bits: (1.0f64.to_bits() - 1 - k) | (sign << 63) });
+        }
+    }
+    for v in [0.0f64, -0.0, -1.0, 0.5, -0.5, 0.999, -0.999, 1e-10, -1e-10] {
+        cases.push(ConvCase { src: 0, bits: (v as f32).to_bits() as u64 });
+        cases.push(ConvCase { src: 1, bits: v.to_bits() });
+    }
+    for v in [i64::MIN, i64::MIN + 1, -1, 0, 1, i64::MAX - 1, i64::MAX, 1 << 40, -(1 << 40)] {
+        cases.push(ConvCase { src: 2, bits: v as u64 });
+        cases.push(ConvCase { src: 3, bits: v as u64 });
+    }
+    ctx.enumerate("conversions-into-custom-types-stay-in-range", true, cases.into_iter(), |c: &ConvCase, st: &mut Stats| {
+        use dasp_sample::{Sample, I24, I48, U24, U48};
+        st.nt(true);
+        macro_rules! into_all {
+            ($v:expr, $what:expr) => {{
+                let (a, b, x, y): (I24, U24, I48, U48) = ($v.to_sample(), $v.to_sample(), $v.to_sample(), $v.to_sample());
+                ensure!((-8_388_608..=8_388_607).contains(&a.inner()), "{} converts to I24 with inner value {} outside [MIN, MAX]", $what, a.inner());
+                ensure!((0..=16_777_215).contains(&b.inner()), "{} converts to U24 with inner value {} outside [MIN, MAX]", $what, b.inner());
+                ensure!((-140_737_488_355_328..=140_737_488_355_327i64).contains(&x.inner()), "{} converts to I48 with inner value {} outside [MIN, MAX]", $what, x.inner());
+                ensure!((0..=281_474_976_710_655i64).contains(&y.inner()), "{} converts to U48 with inner value {} outside [MIN, MAX]", $what, y.inner());
+            }};
+        }
+        match c.src {
+            0 => {
+                let v = f32::from_bits(c.bits as u32);
+                ensure!(v >= -1.0 && v < 1.0, "bad case: outside the documented float domain");
+                into_all!(v, format!("f32 {:e}", v));
+            }
+            1 => {
+                let v = f64::from_bits(c.bits);
+                ensure!(v >= -1.0 && v < 1.0, "bad case: outside the documented float domain");
+                into_all!(v, format!("f64 {:e}", v));
+            }
+            2 => into_all!(c.bits as i64, format!("i64 {}", c.bits as i64)),
+            _ => into_all!(c.bits, format!("u64 {}", c.bits)),
+        }
+        Ok(())
+    });
 }
